@@ -26,6 +26,7 @@ def run(chk):
     )
     chk.not_decided = "that receive() eventually returns in every interleaving (liveness); bounded send-side back-pressure during close; timer arithmetic."
     chk.explanation += " After the defect hunt: sending the Close frame and draining are under the close timeout; the peer's CLOSE is recognised by `is not None`."
+    chk.explanation += " Round 4 / second hunt: a 1006 end aborts the transport on both sides; a late EOF does not rewrite the reported code; the client's Close frame is sent under the close deadline; the locked send task starts eagerly (shared with C11)."
     for sp in SPECS:
         one(chk, repo, sp)
         abnormal(chk, repo, sp)
